@@ -32,6 +32,13 @@ const skip = "skip"
 func allocBound(n int) uint64 { return uint64(512*n + 4*65536 + 16384) }
 
 func oracleC01(op string, args []string) string {
+	if op == "decsh" {
+		r := withTimeout(func() string { return safely(func() string { return opDecSh(args) }) })
+		if r == "panic" || r == "hang" {
+			return "FAIL " + r + " when decoding into a Message whose security header is already filled in"
+		}
+		return "pass"
+	}
 	if op == "dec2x" || op == "dec2" {
 		var r string
 		if op == "dec2x" {
